@@ -1,5 +1,6 @@
 import Dcg.Proofs.Sort
 import Dcg.Proofs.SortPost
+import Dcg.Proofs.SortAction
 import Dcg.Proofs.Repoint
 import Dcg.Proofs.RepointLive
 /-
@@ -297,6 +298,52 @@ example : ClosedRefs [⟨2, [1, 0], [1]⟩, ⟨1, [0], [0]⟩, ⟨0, [2], []⟩]
 /-- The hypothesis `ClosedRefs` is needed: a dangling reference ends in the "can not resolve
 classes" error. -/
 theorem sort_dangling_is_reported : sortDataModels 1000 [⟨0, [7], []⟩] = .error .unresolved := by decide
+
+/-! ### the cycle fall-back: the resolution call is inherited at every depth
+
+In the fall-back (`for model in unresolved_references:` after the bubble, `circular` in the model) a
+model that waits for a cycle partner is written at once and put on `require_update_action_models`; a
+subclass written later inherits the annotation that names the not-yet-defined partner, so it needs a
+call of its own: `update_action_parent = set(require_update_action_models).intersection(base_models)`.
+Because the set is rebuilt from the LIST for every model, a subclass that was just put on the list
+passes the action on to its own subclasses. -/
+
+open Dcg.Proofs.SortAction in
+/-- Split the fall-back loop at any point (`todo = pre ++ rest`): whatever is on the list when `pre` has
+been dealt with — put there by the classification loop, by the recursion, or by the fall-back itself for
+a model that waits for a cycle partner — stays on it, and EVERY inheritance chain `c₁, c₂, …` of ANY depth
+below such a class `b` (`b` base of `c₁`, `c₁` base of `c₂`, …; met in this order among the models of
+`rest`, other models in between allowed) is on the final list: each `cᵢ` gets its
+`update_forward_refs()` / `model_rebuild()`. No hypothesis on the graph, the paths or the input order.
+(A variant of the loop that looks the bases up in a set which is not updated where a subclass is appended
+stops after one level — the model's own list has no such copy.) -/
+theorem fallback_action_closed_under_subclassing (names : List Path) (pre rest s : List Model)
+    (u : List Path) (s' : List Model) (u' : List Path)
+    (h : circular names (pre ++ rest) s u = .ok (s', u')) :
+    ∃ s1 u1, circular names pre s u = .ok (s1, u1) ∧ (∀ p ∈ u1, p ∈ u') ∧
+      ∀ (chain : List Model) (b : Path), chain.Sublist rest → Descends b chain → b ∈ u1 →
+        ∀ c ∈ chain, c.path ∈ u' := by
+  obtain ⟨s1, u1, h1, h2⟩ := circular_split names pre rest s u s' u' h
+  exact ⟨s1, u1, h1, circular_upd_mono names rest s1 u1 s' u' h2,
+    circular_flags_chain names rest s1 u1 s' u' h2⟩
+
+open Dcg.Proofs.SortAction in
+/-- One level, as the code states it: a model reached in the fall-back while one of its base classes is
+on the list is put on the list. -/
+theorem fallback_flags_subclass_of_flagged (names : List Path) (m : Model) (ms s : List Model)
+    (u : List Path) (s' : List Model) (u' : List Path)
+    (h : circular names (m :: ms) s u = .ok (s', u')) (b : Path) (hb : b ∈ m.bases) (hu : b ∈ u) :
+    m.path ∈ u' :=
+  circular_flags_subclass names m ms s u s' u' h b hb hu
+
+/-- The whole function on the cycle `Base{leaf: Leaf}`, `Mid(Base)`, `Low(Mid)`, `Leaf(Low)` (paths 0–3) and
+on the variant with one more level, given leaf-first: `Base`, `Mid`, `Low` (and `Lower`) all get the call
+(`Leaf`, a subclass of a flagged class, gets one too, which is harmless) -/
+example : (sortDataModels 1000 [⟨0, [3], []⟩, ⟨1, [0], [0]⟩, ⟨2, [1], [1]⟩, ⟨3, [2], [2]⟩]).toOption.map
+    (fun o => (o.sorted.map (·.path), o.upd)) = some ([0, 1, 2, 3], [0, 1, 2, 3]) := by decide
+
+example : (sortDataModels 1000 [⟨4, [3], [3]⟩, ⟨3, [2], [2]⟩, ⟨2, [1], [1]⟩, ⟨1, [0], [0]⟩, ⟨0, [4], []⟩]).toOption.map
+    (fun o => (o.sorted.map (·.path), o.upd)) = some ([0, 1, 2, 3, 4], [0, 1, 2, 3, 4]) := by decide
 
 /-! ### `--reuse-model` and the forward-reference footer -/
 
